@@ -1,0 +1,15 @@
+//go:build verif
+// +build verif
+
+package config
+
+import "time"
+
+// VerifSetNetTimeout replaces the network time-out returned by NetTimeout
+// (d <= 0 restores the built-in 45 s), so that time-out scenarios run quickly.
+func VerifSetNetTimeout(d time.Duration) {
+	if d <= 0 {
+		d = time.Second * 45
+	}
+	netTimeout = d
+}
